@@ -184,6 +184,14 @@ def check_emitter_profile(run: Run, lm: lexmodel.LexModel) -> None:
     name_line = any(isinstance(_appended(s), ast.JoinedStr) and len(_appended(s).values) == 3 and isinstance(_appended(s).values[0], ast.Constant) and _appended(s).values[0].value == "===" and isinstance(_appended(s).values[2], ast.Constant) and _appended(s).values[2].value == "===" and _text(_appended(s).values[1].value).endswith(".name") for s in top)
     end_line = any(isinstance(_appended(s), ast.Constant) and _appended(s).value == "===END===" for s in top)
     nl = any(isinstance(s, ast.If) and "endswith('\\n')" in _text(s.test) and "not" in _text(s.test) and any(isinstance(b, ast.AugAssign) and _text(b.value) == "'\\n'" for b in s.body) for s in top)
+    # ... or as one expression: `return X if X.endswith("\n") else X + "\n"` (either polarity)
+    for s_ in top:
+        v = s_.value if isinstance(s_, (ast.Return, ast.Assign)) else None
+        if isinstance(v, ast.IfExp) and "endswith('\\n')" in _text(v.test):
+            neg = isinstance(v.test, ast.UnaryOp) and isinstance(v.test.op, ast.Not)
+            plain, fixed = (v.orelse, v.body) if neg else (v.body, v.orelse)
+            if isinstance(fixed, ast.BinOp) and isinstance(fixed.op, ast.Add) and _text(fixed.right) == "'\\n'" and _text(fixed.left) == _text(plain) and _text(plain) in _text(v.test):
+                nl = True
     for what, ok in (("===NAME=== appended unconditionally", name_line), ("===END=== appended unconditionally", end_line), ("final newline appended when missing", nl)):
         run.instance("R03.4", em.loc(fi.node), f"emit(): {what}", ok=ok)
         if not ok:
